@@ -117,15 +117,21 @@ def get_value_source(
     if param in provided_values:
         return (ValueSource.PROVIDED, provided_values[param])
 
-    # 3. Bound value (from graph.bind()) - check both graph and GraphNode
-    if param in graph.inputs.bound:
-        return (ValueSource.BOUND, graph.inputs.bound[param])
+    # 3. Bound value (from graph.bind()) - this graph's own binding first
+    bound = graph.inputs.bound
+    if param in bound and param in graph._bound:
+        return (ValueSource.BOUND, bound[param])
 
-    # 3b. For GraphNode: check if inner graph has it bound
+    # 3b. For GraphNode: what its inner graph binds itself beats a value that was
+    # lifted from a sibling nested graph binding the same name
     if isinstance(node, GraphNode):
         original_param = node._resolve_original_input_name(param)
         if original_param in node._graph.inputs.bound:
             return (ValueSource.BOUND, node._graph.inputs.bound[original_param])
+
+    # 3c. Bound value lifted from a nested graph
+    if param in bound:
+        return (ValueSource.BOUND, bound[param])
 
     # 4. Function default (from signature)
     if node.has_signature_default_for(param):
